@@ -25,7 +25,8 @@ PROP = "C02"
 DOMAIN = "ser"
 LEVEL = "proof"
 TECHNIQUE = ("Coq model of the serializer (SerModel.v) proved against an independent RFC 8259 syntax/denotation (SerSpec.v) by "
-             "induction on the tree + extracted-model/C differential correspondence + hand-written strict RFC 8259 reader as direct oracle")
+             "induction on the tree, flag independence for all 64 flag words, scalar round trip through the tokener model + extracted-model/C "
+             "differential correspondence + hand-written strict RFC 8259 reader as direct oracle")
 RULE = ("seeded trees (strings with control bytes, NUL, bytes >= 0x80, '/', quotes; int64/uint64 edges; doubles from lattices: powers of "
         "two and ten +- ulp, subnormals, 17-significant-digit cases, exponents ending in 0, integral doubles, random bit patterns; retained-text "
         "doubles; nesting up to 8; empty containers) x flag words (quick: 0 plus a rotating covering subset of the 64; thorough: all 64); "
@@ -41,12 +42,14 @@ ASSUMPTIONS = ["libc snprintf(\"%.17g\") prints a decimal that a correctly round
                "trees contain no NaN/Infinity (not JSON); object keys are C strings (no NUL) and distinct"]
 LEVEL_TEXT = ("Machine-checked (Coq, no axioms): for every tree and every flag word without COLOR the model's output is the rendering of a "
               "syntax tree of the RFC 8259 grammar (SerSpec.v) whose value is exactly the tree (any string bytes incl. NUL/control/non-UTF-8, any "
-              "int64/uint64, any finite double under the stated %.17g shape/round-trip hypotheses), by induction on the tree; COLOR only inserts "
-              "colour sequences; flags other than NOZERO change only insignificant whitespace and the escape form of '/'.  The full flag-independence "
-              "statement is refuted by the code for NOZERO (witness computed in Coq, class nozero_eats_exponent) and proved under the guard.  "
-              "parse(serialize v) through the tokener model is proved for the scalar cases and checked end-to-end by computation; the rest of the "
-              "round trip relies on the differential correspondence.  The model is tied to json_object.c on every run by differential execution.")
-LEVEL_NOTE = ("Partial: the round trip through the tokener model is proved for scalars only (containers: computed examples + correspondence); "
+              "int64/uint64, any finite double under the stated %.17g shape/round-trip hypotheses), by induction on the tree; all 64 flag words "
+              "(NOZERO and COLOR included) change only insignificant whitespace, colour sequences and the escape form of '/' (full strength since "
+              "the NOZERO scan was repaired in json-c commit c53b19e; the old scan's defect, class nozero_eats_exponent, is kept as a theorem about "
+              "the old scan and as a regression class of the direct oracle).  parse(serialize v) through the tokener model is proved for every scalar "
+              "tree (all int64/uint64, all byte strings, all finite doubles under the strtod hypothesis) and checked end-to-end by computation on a "
+              "nested tree under the 32 flag words without COLOR; containers rely on the differential correspondence.  The model is tied to "
+              "json_object.c on every run by differential execution.")
+LEVEL_NOTE = ("Partial: the round trip through the tokener model is proved for scalars only (containers: computed example + correspondence); "
               "%.17g / strtod are oracles with stated hypotheses validated at run time, not Coq theorems; the tie to the C code is sampled.")
 
 SPACED, PRETTY, NOZERO, PRETTY_TAB, NOSLASH, COLOR = 1, 2, 4, 8, 16, 32
@@ -518,7 +521,7 @@ def gen(rng, tier):
     lat = LATTICE if not quick else rng.sample(LATTICE, min(len(LATTICE), 1800))
     for i in range(0, len(lat), 15):
         add([("d", b, None) for b in lat[i:i + 15]], "doubles")
-    for i in range(120 if quick else 2000):
+    for i in range(120 if quick else 600):
         ds = []
         for _ in range(12):
             b = rng.getrandbits(64)
@@ -526,7 +529,7 @@ def gen(rng, tier):
                 b &= ~(1 << 62)
             ds.append(("d", b, None))
         add(ds, "doubles-random")
-    for i in range(80 if quick else 600):
+    for i in range(80 if quick else 300):
         ds = []
         for _ in range(8):
             b = rng.choice(LATTICE)
@@ -536,7 +539,7 @@ def gen(rng, tier):
     for s in STRING_EDGES:
         add(s, "strings")
     # general trees
-    n = 1200 if quick else 12000
+    n = 1200 if quick else 5000
     for i in range(n):
         t = jvtext.gen_tree(rng, depth=rng.choice([1, 2, 3, 3, 4, 5]), size=rng.choice([2, 3, 5, 8]))
         t = fix_strings(rng, fix_doubles(rng, t, 0.15))
